@@ -174,7 +174,7 @@ pub fn append_body(b: &mut Built, framing: &Framing, payload: &[u8]) {
             b.wire.extend_from_slice(b"\r\n");
             b.structural.push(b.wire.len() - 1);
             b.structural.push(b.wire.len());
-            for t in crate::gen::TRAILER_FIELDS.iter().take(plan.trailers as usize) {
+            for t in crate::gen::TRAILER_FIELDS.iter().cycle().take(plan.trailers as usize) {
                 b.wire.extend_from_slice(t.as_bytes());
                 b.structural.push(b.wire.len());
                 b.wire.extend_from_slice(b"\r\n");
